@@ -54,6 +54,13 @@ def train(workdir, lines, rule='v', newline='\n', raw_bytes=None, keep_existing=
     base = os.path.join(workdir, 'Rules', rule)
     if os.path.isdir(base) and not keep_existing:
         shutil.rmtree(base)
+    opts = dict(opts)
+    mw = opts.pop('multiword_words', None)
+    if mw:
+        # trainer.py --multiword FILE: words that pre-train the multi-word detector
+        mwf = os.path.join(workdir, 'multiword_%s.txt' % rule)
+        write_training(mwf, list(mw), enc, '\n')
+        opts['multiword'] = mwf
     pi = program_info(tf, **opts)
     pi['rule_name'] = rule
     out = io.StringIO()
